@@ -267,7 +267,7 @@ func runC01(tier string, seed uint64) {
 	}
 	// media types that are valid but not spelt the way a formatter would spell them: a stored header is
 	// what was sent, byte for byte
-	for _, ct := range []string{"text/html;charset=utf-8", "Text/Plain", `application/json; charset="utf-8"`, "text/plain; format=flowed; charset=us-ascii", "text/plain;  charset=UTF-8",
+	for _, ct := range []string{"application/x-www-form-urlencoded", "multipart/form-data; boundary=zzz", "text/html;charset=utf-8", "Text/Plain", `application/json; charset="utf-8"`, "text/plain; format=flowed; charset=us-ascii", "text/plain;  charset=UTF-8",
 		"APPLICATION/X-Verif; Q=1", "text/plain ; charset=utf-8", "multipart/mixed; boundary=\"a b\"", "text/x-a;b=c;a=d", "not a media type at all", "text/plain;"} {
 		metas = append(metas, []KV{{"Content-Type", ct}, {"Content-Disposition", "ATTACHMENT;filename=x.txt"}, {"Content-Encoding", "GZip"}, {"X-Amz-Meta-Ct", ct}})
 	}
